@@ -56,7 +56,7 @@ const inpNS = "default"
 
 var inpHidx bool      // secondary hash indexes defined on table ta
 var inpExpired bool   // prior state with expired and nearly expired objects
-var inpGroups = []int{1, 1, 3, 7} // path 2: vectors per apply group, by configuration
+var inpGroups = []int{1, 3, 7, 3} // path 2: vectors per apply group, by configuration
 
 // ---------------------------------------------------------------- child: a real server
 
@@ -104,7 +104,12 @@ func (inpNullRaftLogger) Fatalf(format string, v ...interface{})   { panic(fmt.S
 func (inpNullRaftLogger) Panic(v ...interface{})                   { panic(fmt.Sprint(v...)) }
 func (inpNullRaftLogger) Panicf(format string, v ...interface{})   { panic(fmt.Sprintf(format, v...)) }
 
-func inpSkipRaw(k []byte) bool { return bytes.Contains(k, []byte("hlA")) }
+// inpSkipRaw: HyperLogLog keys (write cache; compared through PFCOUNT) and the table's index meta
+// record (the set of indexes is marshalled from a Go map: its bytes are not canonical, and it
+// only changes by index DDL, which is not client input).
+func inpSkipRaw(k []byte) bool {
+	return bytes.Contains(k, []byte("hlA")) || bytes.HasPrefix(k, []byte("\x0bmeta:"))
+}
 
 func inpChild(dir string, port int, eng, policy string) error {
 	detSilence()
@@ -710,6 +715,19 @@ func inpMutations(name string, valid []string, rng *rand.Rand, huge bool) []inpV
 			add(fmt.Sprintf("opt%d", i), a)
 		}
 	}
+	// index query conditions with empty / odd operands (hidx.from runs in a merge goroutine)
+	if name == "hidx.from" && len(valid) == 3 {
+		for _, w := range []string{`"=1"`, `"f1="`, `"="`, `""`, `"f1"`, `"f1==1"`, `"f1>"`, `">1"`, `"<"`, `"<=1"`, `">=1"`, `"f1=1 and"`,
+			`"and"`, `"and f1=1"`, `"f1=1 and =2"`, `"f1>1 and <"`, `f1=1`, `=1`, `"f1=1"x`, `"f1<>1"`, `" =1"`, `"f1 = "`, `"nofield=1"`,
+			`"f1=notnum"`, `"f1=99999999999999999999"`, `"f2=\x00\xff"`, `"f1=1 and f1=2 and f1=3"`} {
+			a := cp()
+			a[2] = w
+			add("where="+w, a)
+		}
+		for _, extra := range [][]string{{"limit"}, {"limit", "notnum"}, {"limit", "-1"}, {"offset", "notnum"}, {"hget", "$"}, {"hget"}} {
+			add("whereopt="+strings.Join(extra, "_"), append(cp(), extra...))
+		}
+	}
 	// a value over the 8 MiB limit in the LAST position of a multi-element command (the handler
 	// has buffered the valid leading elements when it meets it)
 	if len(valid) >= 3 && inpMultiElem[name] {
@@ -1273,7 +1291,7 @@ func inputsim(args []string) error {
 		// most often disagree about); the budget samples the value/key/option mutations
 		var rest []inpVec
 		for _, v := range all {
-			always := strings.HasPrefix(v.mut, "expkey=") || v.mut == "valid" || v.mut == "noargs" || strings.HasPrefix(v.mut, "drop") || v.mut == "append1" || v.mut == "append2"
+			always := strings.HasPrefix(v.mut, "where") || strings.HasPrefix(v.mut, "expkey=") || v.mut == "valid" || v.mut == "noargs" || strings.HasPrefix(v.mut, "drop") || v.mut == "append1" || v.mut == "append2"
 			// over-long sub-keys in write commands: the handler may have buffered the valid
 			// leading elements when it meets the bad one (error path with a non-empty write batch)
 			if k := d.rw[v.name]; (k == "w" || k == "mw") && strings.HasPrefix(v.mut, "sub") && strings.Contains(v.mut, `="SSSSSS`) {
@@ -1313,7 +1331,28 @@ func inputsim(args []string) error {
 			{"hset", K("hsS1"), "only", "v"}, {"hdel", K("hsS1"), "only"}} {
 			last = append(last, inpVec{name: c[0], mut: "last-element", args: c})
 		}
+		// batch-abort neighbourhoods for path 2 at group sizes 3 and 7: batchable writes, among them SET
+		// with EX / NX / XX options, directly followed by a batchable command that passes the leader
+		// and fails in its apply handler (the whole pending batch is aborted and every command of it
+		// is answered with the error: none of their writes may be visible - the twin skips them).
+		// Fillers shift the pattern through every alignment to the group boundaries.
+		var ab []inpVec
+		abn := 0
+		for rep := 0; rep < 8; rep++ {
+			kk := func() string { abn++; return K(fmt.Sprintf("kvB%d", abn%6+1)) }
+			fails := [][]string{{"setex", K("kvB9"), "notnum", "v"}, {"setex", K("kvB9"), "0", "v"}, {"setex", K("kvB9"), "-5", "v"}}
+			for _, c := range [][]string{{"set", kk(), fmt.Sprintf("a%d", rep)}, {"set", kk(), fmt.Sprintf("b%d", rep), "ex", "100000"},
+				{"set", kk(), fmt.Sprintf("c%d", rep), "nx"}, {"set", kk(), fmt.Sprintf("d%d", rep), "xx"}, {"hmset", K("hsB1"), "f", fmt.Sprintf("e%d", rep)},
+				{"set", kk(), fmt.Sprintf("g%d", rep), "ex", "100000", "nx"}, fails[rep%len(fails)]} {
+				ab = append(ab, inpVec{name: c[0], mut: "abort-group", args: c})
+			}
+			for f := 0; f < rep%7; f++ {
+				ab = append(ab, inpVec{name: "set", mut: "abort-group", args: []string{"set", K("kvF1"), fmt.Sprintf("f%d", f)}})
+			}
+		}
+		d.known = append(d.known, "kvB1", "kvB2", "kvB3", "kvB4", "kvB5", "kvB6", "kvB9", "hsB1", "kvF1")
 		plan = append(last, plan...)
+		plan = append(plan, ab...)
 	case "huge-json-index":
 		plan = []inpVec{{name: "json.arrappend", mut: "num1=999999999", args: []string{"json.arrappend", inpK("jsA9"), "999999999", "1"}}}
 	case "nonutf8-table":
@@ -1569,6 +1608,9 @@ func inpApplySegment(d *inpDrv, eng, policy string, vecs [][]string, st map[stri
 	var twice [][]string
 	for _, v := range vecs {
 		twice = append(twice, v)
+		if len(v) > 1 && (strings.Contains(v[1], "kvB") || strings.Contains(v[1], "hsB1") || strings.Contains(v[1], "kvF1")) {
+			continue // abort-group vectors: a repeated key would cut the write batch they are meant to share
+		}
 		if len(v) > 0 && len(v) < 64 {
 			big := false
 			for _, a := range v {
@@ -1736,6 +1778,13 @@ func inpApplyGrouped(d *inpDrv, main, twin *detSM, vecs [][]string, st map[strin
 			}
 		}
 		td, _ := twin.rawDump(inpSkipRaw)
+		if os.Getenv("ZR_DEBUG_TWIN") != "" && detDigest(td) != detDigest(post) {
+			for _, k := range inpDiff(td, post) {
+				b, _ := hex.DecodeString(k)
+				fmt.Fprintf(os.Stderr, "TWINDIFF %q main=%s twin=%s\n", b, post[k], td[k])
+			}
+			os.Setenv("ZR_DEBUG_TWIN", "")
+		}
 		ch := inpDiff(pre, post)
 		foreign := inpForeign(ch, addressed, d.known)
 		if foreign == nil {
